@@ -94,16 +94,41 @@ def _probe_handler(node, seq):
     return False
 
 
+def batch_closure(model):
+    """BATCH_PATH plus the same-module helpers its functions call (not the
+    excepted features)."""
+    todo = []
+    for where in sorted(BATCH_PATH):
+        mshort, qual = where.split(':')
+        todo.append(model.func(mshort, qual))
+    seen = {f.where: f for f in todo}
+    while todo:
+        fi = todo.pop()
+        for n in own_nodes(fi.node):
+            if not isinstance(n, ast.Call):
+                continue
+            for t in model.resolve_callee(n.func, fi):
+                if t[0] == 'func' and t[1].where not in seen and \
+                        t[1].where not in EXCEPTED and \
+                        t[1].module.short in ('DT_In', 'DT_InSV') and \
+                        t[1].name not in ('__init__',) and \
+                        not t[1].where.startswith('DT_In:InClass.render'):
+                    seen[t[1].where] = t[1]
+                    todo.append(t[1])
+    return seen
+
+
 def rule_effects(model):
     r = RuleResult('C12.R1', 'no operation on the batch path forces the '
                    'whole (lazy) sequence')
     n_uses = 0
-    for where in sorted(BATCH_PATH):
-        mshort, qual = where.split(':')
-        fi = model.func(mshort, qual)
+    closure = batch_closure(model)
+    for where in sorted(closure):
+        fi = closure[where]
         names = seq_names(model, fi)
         if not names:
-            if where.endswith(('query', '__getitem__', 'first', 'last')):
+            if where not in BATCH_PATH or where.endswith(
+                    ('query', '__getitem__', 'first', 'last')):
                 continue
             raise AnalysisError(f'C12.R1: no sequence value found in '
                                 f'{where}')
@@ -195,11 +220,64 @@ def rule_effects(model):
                          for w in tg) and tg
                 r.instance(where, n, 'passed on to ' + ','.join(sorted(tg)))
                 n_uses += 1
+                # an excepted feature may force -- but only when requested
+                for w in tg & EXCEPTED:
+                    stem = 'sort' if 'sort' in w else (
+                        'reverse' if 'reverse' in w else None)
+                    if stem is None or where in EXCEPTED:
+                        continue
+                    cond = False
+                    for anc in ancestors(n):
+                        if isinstance(anc, ast.If) and \
+                                f'self.{stem}' in norm(anc.test):
+                            cond = True
+                            t = ast.unparse(anc.test)
+                            # an *_expr option requests the feature only
+                            # when it evaluates true
+                            if stem == 'reverse' and \
+                                    f'self.{stem}_expr' in t and \
+                                    f'self.{stem}_expr.eval(' not in t:
+                                cond = False
+                        if isinstance(anc, ast.FunctionDef):
+                            break
+                    if not cond:
+                        r.finding(where, n, f'{w.split(".")[-1]} (which '
+                                  'needs the whole sequence) is called '
+                                  f'whether or not {stem} was requested',
+                                  node=n, ctx=fi)
                 if not ok:
                     r.finding(where, n, 'the sequence is handed to a '
                               'function that is not known to leave it lazy',
                               node=n, ctx=fi)
-    r.stats = {'uses_classified': n_uses}
+    # the raw iterable is owned by the lazy wrapper alone
+    ens = 'DT_Util:sequence_ensure_subscription'
+    for fi in model.all_funcs():
+        if fi.module.short not in ('DT_In', 'DT_InSV', 'TreeTag'):
+            continue
+        for n in own_nodes(fi.node):
+            if isinstance(n, ast.Call) and ens in model.callee_names(n, fi) \
+                    and n.args and isinstance(n.args[0], ast.Name):
+                raw = n.args[0].id
+                if raw in fi.params():
+                    continue
+                for u in own_nodes(fi.node):
+                    if isinstance(u, ast.Name) and u.id == raw and \
+                            isinstance(u.ctx, ast.Load) and \
+                            u is not n.args[0]:
+                        par = u._dt_parent
+                        ok = isinstance(par, ast.Call) and \
+                            isinstance(par.func, ast.Name) and \
+                            par.func.id == 'isinstance'
+                        r.instance(fi.where, par, 'raw value use')
+                        if not ok:
+                            r.finding(fi.where, par, f'the raw iterable '
+                                      f'`{raw}` is used (stored / passed '
+                                      'on) besides being wrapped: whoever '
+                                      'reaches it through that reference '
+                                      'pulls elements behind the lazy '
+                                      'wrapper', node=u, ctx=fi)
+    r.stats = {'uses_classified': n_uses,
+               'functions': sorted(closure)}
     r.require_floor(20)
     return r
 
